@@ -63,6 +63,9 @@ UNMIRRORED = ("intersection-strict-objects", "intersection-strict-nested")
 def make_key(known_keys):
     def key(op, impl, M, S):
         kind = C.op_body(op).split(" ")[1]
+        if kind == "refs":
+            # the statement on the implementation alone: every $ref names a $defs entry; otherwise model ≠ implementation
+            return "refs:unresolved" if (S or "").startswith("refs-must-resolve") else "refs:model-differs"
         if kind in ("doc", "hdoc"):
             if S is not None and S.startswith("document-of-first-conversion:"):
                 return "doc:unstable"      # a later conversion of the same instance / options gave another document
@@ -179,6 +182,16 @@ def run(res):
         mm, _, why = m.partition("\t")
         body = C.op_body(o)
         kind = body.split(" ")[1] if " " in body else ""
+        if kind == "refs":
+            # "defs=a,b;refs=x,y" (or error / panic): judged on the implementation alone — every reference resolves
+            spec = im
+            if im.startswith("defs="):
+                d, _, r = im.partition(";refs=")
+                defs = set(x for x in d[len("defs="):].split(",") if x)
+                if any(x not in defs for x in r.split(",") if x):
+                    spec = "refs-must-resolve"
+            ops2.append(o); model2.append(mm + "\t" + spec)
+            continue
         if kind in ("doc", "hdoc"):
             if kind == "doc":
                 ref_key = (DEFAULT, body.split(" ", 2)[2])
